@@ -17,7 +17,11 @@ import (
 //                                       second count, constrained to their documented ranges.
 // i.e. the calendar arithmetic of package time is trusted; the code around it is what is checked.
 
-type civil struct{ y, mo, d, h, mi, s *Term }
+type civil struct {
+	y, mo, d, h, mi, s *Term
+	off             *Term // zone offset in seconds (constant 0 for UTC)
+	loc             *Obj  // location object the components are expressed in (nil = UTC)
+}
 
 func (e *Engine) timeParts(v Value) (wall, ext *Term, loc Value, ok bool) {
 	a, isAgg := v.(*Agg)
@@ -47,9 +51,17 @@ func init() {
 			return e.callBody(st, fn, a, nil, ins)
 		}
 		loc, _ := a[7].(Pointer)
+		var off *Term = e.c64(0)
+		var locObj *Obj
+		var locVal Value = Pointer{}
 		if loc.Obj == nil || loc.Obj.Name != "time.utcLoc" {
-			e.cutPath(st, "time.Date with symbolic components in a location other than UTC", ins)
-			return nil
+			// a fixed zone (time.FixedZone): read zone[0].offset from the Location object
+			o, ok := e.fixedZoneOffset(st, loc, fn)
+			if !ok {
+				e.cutPath(st, "time.Date with symbolic components in a location that is neither UTC nor a fixed zone", ins)
+				return nil
+			}
+			off, locObj, locVal = o, loc.Obj, loc
 		}
 		e.Models["time.Date/Year/Month/Day/Hour/Minute/Second: civil calendar modelled by contract (see gosmt/timemodel.go)"] = true
 		rng := func(t *Term, lo, hi int64) *Term {
@@ -63,14 +75,14 @@ func init() {
 			}
 			st.assume(norm)
 		}
-		sec := e.tt.UF("civil_sec", 64, ts[0], ts[1], ts[2], ts[3], ts[4], ts[5])
+		sec := e.tt.Sub(e.tt.UF("civil_sec", 64, ts[0], ts[1], ts[2], ts[3], ts[4], ts[5]), off)
 		if e.civil == nil {
 			e.civil = map[*Term]civil{}
 		}
-		e.civil[sec] = civil{ts[0], ts[1], ts[2], ts[3], ts[4], ts[5]}
+		e.civil[sec] = civil{ts[0], ts[1], ts[2], ts[3], ts[4], ts[5], off, locObj}
 		// wall: no monotonic clock, nanoseconds in the low 30 bits
 		wall := e.tt.And(ts[6], e.tt.Const(64, 1<<30-1))
-		return e.ret(st, &Agg{Elems: []Value{wall, sec, Pointer{}}, Epoch: -1})
+		return e.ret(st, &Agg{Elems: []Value{wall, sec, locVal}, Epoch: -1})
 	}
 	acc := func(name string, pick func(c civil) *Term, lo, hi int64) {
 		intrinsics["(time.Time)."+name] = func(e *Engine, st *State, fn *ssa.Function, a []Value, ins ssa.Instruction) []*State {
@@ -81,13 +93,22 @@ func init() {
 			if ext.IsConst() {
 				return e.callBody(st, fn, a, nil, ins)
 			}
-			if p, isP := loc.(Pointer); !isP || p.Obj != nil {
-				e.cutPath(st, "calendar accessor on a symbolic time in a non-UTC location", ins)
+			p, isP := loc.(Pointer)
+			if !isP {
+				e.cutPath(st, "calendar accessor on a time with an unknown location", ins)
 				return nil
 			}
 			e.Models["time.Date/Year/Month/Day/Hour/Minute/Second: civil calendar modelled by contract (see gosmt/timemodel.go)"] = true
 			if c, ok := e.civil[ext]; ok {
-				return e.ret(st, pick(c))
+				sameLoc := p.Obj == c.loc
+				zeroOff := c.off.IsConst() && c.off.Val == 0
+				if sameLoc || (zeroOff && (p.Obj == nil || c.loc == nil)) {
+					return e.ret(st, pick(c))
+				}
+			}
+			if p.Obj != nil {
+				e.cutPath(st, "calendar accessor on a symbolic time in a non-UTC location it was not built in", ins)
+				return nil
 			}
 			v := e.tt.UF("civil_"+name, 64, ext)
 			st.assume(e.tt.BAnd(e.tt.SLe(e.tt.Const(64, uint64(lo)), v), e.tt.SLe(v, e.tt.Const(64, uint64(hi)))))
@@ -103,3 +124,50 @@ func init() {
 }
 
 var _ = types.Typ
+
+// fixedZoneOffset reads zone[0].offset of a *time.Location built by time.FixedZone.
+func (e *Engine) fixedZoneOffset(st *State, loc Pointer, dateFn *ssa.Function) (*Term, bool) {
+	if loc.Obj == nil {
+		return nil, false
+	}
+	pt, ok := dateFn.Signature.Params().At(7).Type().(*types.Pointer)
+	if !ok {
+		return nil, false
+	}
+	ls, ok := pt.Elem().Underlying().(*types.Struct)
+	if !ok {
+		return nil, false
+	}
+	zi := -1
+	for i := 0; i < ls.NumFields(); i++ {
+		if ls.Field(i).Name() == "zone" {
+			zi = i
+		}
+	}
+	if zi < 0 {
+		return nil, false
+	}
+	zs, ok := e.loadPtr(st, Pointer{Obj: loc.Obj, Path: appendPath(loc.Path, PathElem{Idx: zi})}).(Slice)
+	if !ok || zs.Obj == nil || !zs.Len.IsConst() || zs.Len.Val != 1 {
+		return nil, false
+	}
+	zt, ok := ls.Field(zi).Type().Underlying().(*types.Slice).Elem().Underlying().(*types.Struct)
+	if !ok {
+		return nil, false
+	}
+	oi := -1
+	for i := 0; i < zt.NumFields(); i++ {
+		if zt.Field(i).Name() == "offset" {
+			oi = i
+		}
+	}
+	if oi < 0 {
+		return nil, false
+	}
+	ep := e.sliceElemPtr(zs, e.c64(0))
+	off, ok := e.loadPtr(st, Pointer{Obj: ep.Obj, Path: appendPath(ep.Path, PathElem{Idx: oi})}).(*Term)
+	if !ok {
+		return nil, false
+	}
+	return e.tt.Resize(off, 64, true), true
+}
